@@ -40,8 +40,10 @@ Hostile == {"01", "007", Big32, Big64, D20, D23, Z23, ZBig64, ZBig65}
 SvIds == {"0", "1", "2", "10", "01", "alpha", "beta", "rc", "a", "A", "b", "B", "Alpha", "Beta", "RC", "-5", "a-b", "-",
           "0a", "x", "123456789012345678", "123456789012345679", "99999999999999999", "100000000000000000", "alpha1", "1a"}
 SvId2 == {"0", "1", "10", "alpha", "a", "A", "B", "-5", "x"}
-SvG(prefixes, fourth) ==
-  [ S    |-> T(prefixes, "MAJ"),
+\* xpre: further prefix spellings the parser accepts (npm: "=", "v=", "=v"), on a poor branch of their own
+SvGX(prefixes, fourth, xpre) ==
+  [ S    |-> T(prefixes, "MAJ") \cup T(xpre, "XP"),
+    XP   |-> T({"1.2.3", "0.0.1-rc.1", "1.0.0+b1", "10.0.0-alpha.x"}, "END"),
     MAJ  |-> T({"0", "1", "10"}, "d1") \cup T({"1.0.0", "1.2.3"}, "RICH") \cup T({"01"}, "d1"),
     d1   |-> T({"."}, "MIN"),
     MIN  |-> T({"0", "1", "9", "10"}, "d2") \cup T({"00"}, "d2"),
@@ -57,6 +59,7 @@ SvG(prefixes, fourth) ==
     ID2  |-> T(SvId2, "AFT2"),
     AFT2 |-> T({".0", ".x"}, "END"),
     END  |-> {} ]
+SvG(prefixes, fourth) == SvGX(prefixes, fourth, {})
 SvAcc == {"POOR", "RICH", "RICH4", "AFT1", "AFT2", "END"}
 
 (* Go modules: SemVer shapes with "v" plus the three pseudo-version forms.   *)
@@ -288,7 +291,7 @@ CranG ==
 G(e) ==
   CASE e = "semver"     -> SvG({""}, FALSE)
     [] e = "cargo"      -> SvG({""}, FALSE)
-    [] e = "npm"        -> SvG({"", "v"}, FALSE)
+    [] e = "npm"        -> SvGX({"", "v"}, FALSE, {"=", "v=", "=v"})
     [] e = "nuget"      -> SvG({"", "v"}, TRUE)
     [] e = "hex"        -> HexG
     [] e = "golang"     -> GolangG
